@@ -4,7 +4,7 @@
    children, and all of this holds below it with itself as parent and the same owner.
    WFw w: the document root is parentless with one owner throughout; every detached/removed root is parentless and
    owned by no document throughout.  Statements only; proofs in Proofs/DomProofs.v. *)
-From AHP Require Import Model.Base Model.Str Model.Attr Model.Dom Proofs.DomProofs.
+From AHP Require Import Model.Base Model.Str Model.Attr Model.Dom Model.Nav Proofs.DomProofs Proofs.NavProofs.
 From Coq Require Import Permutation.
 
 (* one call of any public mutator (failing calls included) keeps every reachable element within the invariant *)
@@ -29,6 +29,21 @@ Theorem C04_insert_uids : forall after w t c r h bs bi0 ct w' x, NoDup (world_ui
 Proof. exact insertTag_uids. Qed.
 Theorem C04_removeChild_uids : forall w t c, NoDup (world_uids w) -> Permutation (world_uids (fst (removeChild w t c))) (world_uids w).
 Proof. exact removeChild_uids. Qed.
+(* navigation (Model/Nav.v transcribes the properties as coded: element siblings through the children list, node siblings
+   through the block list): under the invariant both describe one order - nextElementSibling is the first element among the
+   blocks that follow - and next / previous are inverse along a block list without repeated elements *)
+Theorem C04_next_element_sibling : forall w p t pp o, parent_tag w t = Some p -> WF pp o p -> forall i,
+  block_index (tuid t) (bs_ p) 0 = Some i ->
+  next_element_sibling w t = match tags_of (skipn (S i) (bs_ p)) with c :: _ => NTag (tuid c) | [] => NNone end.
+Proof. exact next_element_is_next_tag_block. Qed.
+Theorem C04_positions_agree : forall u bs i, block_index u bs 0 = Some i ->
+  nat_index u (map tuid (tags_of bs)) 0 = Some (count_tags i bs) /\ (exists c, nth_error bs i = Some (BTag c) /\ tuid c = u)
+  /\ tags_of (skipn (S i) bs) = skipn (S (count_tags i bs)) (tags_of bs).
+Proof. exact index_agree. Qed.
+Theorem C04_next_previous_inverse : forall bs u i c, NoDup (map tuid (tags_of bs)) ->
+  block_index u bs 0 = Some i -> nth_error bs (S i) = Some (BTag c) -> block_index (tuid c) bs 0 = Some (S i).
+Proof. exact next_previous_inverse. Qed.
+
 (* the decidable form of the invariant is sound (it is evaluated by the kernel on every correspondence case) *)
 Theorem C04_checker_sound : forall w, wfwb w = true -> WFw w.
 Proof. exact wfwb_sound. Qed.
